@@ -47,6 +47,10 @@ type c07Msg struct {
 	K string `json:"k"` // str dflt err marsh other nil
 	T int    `json:"t,omitempty"`
 	V int    `json:"v,omitempty"` // which Go type carries it
+	// str / err: index into c07Decor — bytes appended to the marker (control bytes, DEL, invalid
+	// UTF-8, non-printable runes, quotes, HTML characters, ...); the client must get them back
+	// through JSON decoding
+	Dec int `json:"dec,omitempty"`
 }
 
 type c07Err struct {
@@ -58,6 +62,8 @@ type c07Err struct {
 	V    int     `json:"v,omitempty"`  // how the HTTPError is constructed / Internal attached (V%3==0: WithInternal, else SetInternal)
 	// plain: 1-based index into c07StdErrs — the error IS that well-known value (context.Canceled, ...)
 	Std int `json:"std,omitempty"`
+	// plain (Std == 0) / wrap: index into c07Decor, appended to the marker in the error text
+	Dec int `json:"dec,omitempty"`
 	// http: 1-based index into c07EchoSent — the error is built from that exported echo variable
 	// (code and default message are the variable's; In == nil: the variable itself, with whatever
 	// Internal an earlier SetInternal left in it)
@@ -113,6 +119,14 @@ type c07Case struct {
 	Via   string `json:"via,omitempty"`   // "" our handler | 404 | 405: the router's own handlers return echo.ErrNotFound / echo.ErrMethodNotAllowed
 	Ctx   string `json:"ctx,omitempty"`   // request context: "" live | cancelled | deadline
 	WFail bool   `json:"wfail,omitempty"` // every Write on the underlying writer fails
+	// a panic raised INSIDE the commit step of the failing code's own response write (Pre must be
+	// wrote / nocontent / writeheader / flush): "hook" = a Response.Before hook panics the first
+	// time it runs (with the value Panic describes); "writer" = PreCode is outside 100..999 and
+	// the underlying writer refuses it like net/http does (panics with a string naming atom
+	// PanicT).  Either way the commit is aborted: nothing is out, Committed must still be false.
+	In string `json:"in,omitempty"`
+	// panic("…") values: index into c07Decor, appended to the marker
+	PanicDec int `json:"panic_dec,omitempty"`
 	// where the error is raised: "" in the route's handler | pre | use | group: in a middleware
 	// that sits innermost at that level (so only the layers of that level and outside see it)
 	From string `json:"from,omitempty"`
@@ -206,6 +220,48 @@ func c07Atoms(s string) []int {
 	return out
 }
 
+// bytes appended to a marker: what strconv.Quote and JSON escape differently, what JSON cannot
+// carry (invalid UTF-8 arrives as U+FFFD, one per byte), what encoding/json HTML-escapes
+var c07Decor = []string{
+	"", "\x00", "\x01", "\a", "\v", "\x7f", "\xff", "\xc3(", "\U000e0001", "\u2028\u2029", " \"quoted\" ", " back\\slash ",
+	" <b>&amp;</b> ", "\n\t\r\b\f", "é日本", "\x1b[31m", "\xed\xa0\x80", "\x1f\x7f\u0080\u009f", "\ufeff\ufffd", "'`${}%s%d",
+}
+
+func c07Dec(i int) string {
+	if i <= 0 || i >= len(c07Decor) {
+		return ""
+	}
+	return c07Decor[i]
+}
+
+// what a JSON client decodes for a Go string: every byte that is not part of a valid UTF-8
+// sequence arrives as U+FFFD
+func c07Coerce(s string) string {
+	var b strings.Builder
+	for _, r := range s {
+		b.WriteRune(r)
+	}
+	return b.String()
+}
+
+var c07MarkerPrefix = regexp.MustCompile(`^qx(\d+)xq`)
+
+// a decoded message text that is a marker followed by one of the decorations
+func c07MarkerText(ms string) (int, bool) {
+	m := c07MarkerPrefix.FindStringSubmatch(ms)
+	if m == nil {
+		return 0, false
+	}
+	rest := ms[len(m[0]):]
+	for _, d := range c07Decor {
+		if rest == c07Coerce(d) {
+			n, _ := strconv.Atoi(m[1])
+			return n, true
+		}
+	}
+	return 0, false
+}
+
 // atom and text of a plain / wrap node
 func c07Atom(e *c07Err) int {
 	if e.K == "plain" && e.Std > 0 {
@@ -214,6 +270,14 @@ func c07Atom(e *c07Err) int {
 	return e.T
 }
 func c07Text(e *c07Err) string {
+	if e.K == "plain" && e.Std > 0 {
+		return c07StdErrs[e.Std-1].Error()
+	}
+	return c07Mk(e.T) + c07Dec(e.Dec)
+}
+
+// the part of the text that identifies it in a body whatever the escaping
+func c07Needle(e *c07Err) string {
 	if e.K == "plain" && e.Std > 0 {
 		return c07StdErrs[e.Std-1].Error()
 	}
@@ -254,9 +318,9 @@ type c07PanicStruct struct{ ID string }
 func c07BuildMsg(m *c07Msg) interface{} {
 	switch m.K {
 	case "str":
-		return c07Mk(m.T)
+		return c07Mk(m.T) + c07Dec(m.Dec)
 	case "err":
-		return errors.New(c07Mk(m.T))
+		return errors.New(c07Mk(m.T) + c07Dec(m.Dec))
 	case "marsh":
 		if m.V%2 == 1 {
 			return c07MarshErr{c07Mk(m.T)}
@@ -283,15 +347,15 @@ func c07Build(e *c07Err) error {
 		if e.Std > 0 {
 			return c07StdErrs[e.Std-1]
 		}
-		return errors.New(c07Mk(e.T))
+		return errors.New(c07Text(e))
 	case "wrap":
 		switch e.V % 3 {
 		case 1:
-			return errors.Join(errors.New(c07Mk(e.T)), c07Build(e.In))
+			return errors.Join(errors.New(c07Text(e)), c07Build(e.In))
 		case 2:
-			return &c07Wrapper{c07Mk(e.T), c07Build(e.In)}
+			return &c07Wrapper{c07Text(e), c07Build(e.In)}
 		}
-		return fmt.Errorf(c07Mk(e.T)+": %w", c07Build(e.In))
+		return fmt.Errorf("%s: %w", c07Text(e), c07Build(e.In))
 	}
 	var he *echo.HTTPError
 	if e.Sent > 0 {
@@ -329,7 +393,7 @@ func (h c07Heap) build(e *c07Err) *c07Err {
 	case "plain":
 		return e
 	case "wrap":
-		return &c07Err{K: "wrap", T: e.T, V: e.V, In: h.build(e.In)}
+		return &c07Err{K: "wrap", T: e.T, V: e.V, Dec: e.Dec, In: h.build(e.In)}
 	}
 	in := h.build(e.In)
 	if e.Sent > 0 {
@@ -382,8 +446,8 @@ func c07ValidErr(e *c07Err, allowSent bool) bool {
 					return false
 				}
 				last = e.Sent
-			} else if e.Msg == nil {
-				return false
+			} else if e.Msg == nil || e.Code < 200 || e.Code > 599 {
+				return false // the property quantifies over codes 200-599
 			}
 		default:
 			return false
@@ -549,12 +613,19 @@ func c07EncLayer(rq *c07Case, i int, l c07Layer) string {
 // model line of one request; raised = resolved tree of the raised error value (nil for non-error panics)
 func c07OpsOne(cfg, c *c07Case, raised *c07Err) string {
 	pre := map[string]int{"": 0, "wrote": 1, "nocontent": 2, "flush": 3, "jsonbad": 4, "writeheader": 5}[c.Pre]
+	preCode := c.PreCode
+	if c.In != "" {
+		pre = 6 // the commit of the pre-step is aborted by a panic
+		if preCode < 0 {
+			preCode = 1000000 - preCode
+		}
+	}
 	layers := c07Effective(cfg, c)
 	parts := []string{wBool(cfg.Debug), wBool(c.Method == http.MethodHead), wInt(len(layers))}
 	for i, l := range layers {
 		parts = append(parts, c07EncLayer(c, i, l))
 	}
-	parts = append(parts, wInt(pre), wInt(c.PreCode))
+	parts = append(parts, wInt(pre), wInt(preCode))
 	switch {
 	case c07IsAbort(c):
 		parts = append(parts, "1", "4")
@@ -579,12 +650,20 @@ type c07Writer struct {
 	calls  []int
 	chunks [][]byte
 	fail   bool
+	// refuse status codes outside 100..999 like net/http's writer: panic before recording
+	strict bool
+	atom   int // named in the panic text
 }
 
 var errC07Write = errors.New("underlying writer: connection lost")
 
 func (w *c07Writer) Header() http.Header  { return w.h }
-func (w *c07Writer) WriteHeader(code int) { w.calls = append(w.calls, code) }
+func (w *c07Writer) WriteHeader(code int) {
+	if w.strict && len(w.calls) == 0 && (code < 100 || code > 999) {
+		panic(fmt.Sprintf("invalid WriteHeader code %v %s", code, c07Mk(w.atom)))
+	}
+	w.calls = append(w.calls, code)
+}
 func (w *c07Writer) Write(b []byte) (int, error) {
 	if len(w.calls) == 0 {
 		w.calls = append(w.calls, -200) // implicit 200 of the underlying writer: echo wrote without committing
@@ -640,8 +719,8 @@ func c07CanonChunk(b []byte, status int) string {
 				return "9"
 			}
 			var text string
-			if at := c07Atoms(ms); len(at) == 1 && ms == c07Mk(at[0]) {
-				text = wJoin("0", wInt(at[0]))
+			if at, ok := c07MarkerText(ms); ok {
+				text = wJoin("0", wInt(at))
 			} else if ms == http.StatusText(status) {
 				text = wJoin("1", wInt(status))
 			} else {
@@ -690,7 +769,7 @@ func c07Rule(e *c07Err) (int, *c07Msg) {
 func c07Secrets(e *c07Err, out *[]string) {
 	for ; e != nil; e = e.In {
 		if e.K == "plain" || e.K == "wrap" {
-			*out = append(*out, c07Text(e))
+			*out = append(*out, c07Needle(e))
 		}
 	}
 }
@@ -819,6 +898,30 @@ func c07NewEcho(c *c07Case, st *c07State) *echo.Echo {
 	raise := func(ctx echo.Context) error {
 		c := st.cur // the request being served
 		st.resp = ctx.Response()
+		throw := func() {
+			switch c.Panic {
+			case "err":
+				st.raised = c07Build(c.Err)
+				panic(st.raised)
+			case "str":
+				panic(c07Mk(c.PanicT) + c07Dec(c.PanicDec))
+			case "int":
+				panic(7000000 + c.PanicT)
+			case "struct":
+				panic(c07PanicStruct{c07Mk(c.PanicT)})
+			case "abort":
+				panic(http.ErrAbortHandler)
+			}
+		}
+		if c.In == "hook" {
+			fired := false
+			ctx.Response().Before(func() {
+				if !fired { // the first commit attempt only: the error handler's own commit passes
+					fired = true
+					throw()
+				}
+			})
+		}
 		switch c.Pre {
 		case "wrote":
 			_ = ctx.String(c.PreCode, "pre")
@@ -831,22 +934,11 @@ func c07NewEcho(c *c07Case, st *c07State) *echo.Echo {
 		case "writeheader":
 			ctx.Response().WriteHeader(c.PreCode)
 		}
-		switch c.Panic {
-		case "":
+		if c.Panic == "" {
 			st.raised = c07Build(c.Err)
 			return st.raised
-		case "err":
-			st.raised = c07Build(c.Err)
-			panic(st.raised)
-		case "str":
-			panic(c07Mk(c.PanicT))
-		case "int":
-			panic(7000000 + c.PanicT)
-		case "struct":
-			panic(c07PanicStruct{c07Mk(c.PanicT)})
-		case "abort":
-			panic(http.ErrAbortHandler)
 		}
+		throw()
 		return nil
 	}
 	// a middleware that fails instead of calling next, for the requests raised at its level
@@ -903,6 +995,33 @@ func c07Normalise(rq *c07Case) {
 	}
 	if rq.Via != "" || (rq.From != "pre" && rq.From != "use" && rq.From != "group") {
 		rq.From = ""
+	}
+	switch {
+	case rq.Via != "":
+		rq.In = ""
+	case rq.In == "hook":
+		if rq.Pre != "wrote" && rq.Pre != "nocontent" && rq.Pre != "writeheader" && rq.Pre != "flush" {
+			rq.Pre, rq.PreCode = "wrote", 200
+		}
+		if rq.Pre != "flush" && (rq.PreCode < 100 || rq.PreCode > 999) {
+			rq.PreCode = 200
+		}
+		if rq.Panic == "" {
+			rq.Panic = "err" // a hook cannot return an error: it panics with it
+		}
+	case rq.In == "writer":
+		if rq.Pre != "wrote" && rq.Pre != "nocontent" && rq.Pre != "writeheader" {
+			rq.Pre = "nocontent"
+		}
+		if rq.PreCode >= 100 && rq.PreCode <= 999 {
+			rq.PreCode = 0
+		}
+		rq.Panic, rq.PanicDec, rq.Err = "str", 0, nil // net/http panics with a string
+		if rq.PanicT == 0 {
+			rq.PanicT = 77
+		}
+	default:
+		rq.In = ""
 	}
 }
 
@@ -1024,7 +1143,7 @@ func c07Run(ci any) (res Result) {
 // c07One serves one failing request (rq) on the Echo built from cfg and judges it on its own:
 // observation in the model's format, oracle verdict, non-triviality
 func c07One(e *echo.Echo, cfg, c *c07Case, raised *c07Err, st *c07State, tagSet map[string]bool, exclusive bool) (string, string, bool) {
-	w := &c07Writer{h: http.Header{}, fail: c.WFail}
+	w := &c07Writer{h: http.Header{}, fail: c.WFail, strict: c.In == "writer", atom: c.PanicT}
 	path := "/g/x"
 	switch c.Via {
 	case "404":
@@ -1095,7 +1214,7 @@ func c07One(e *echo.Echo, cfg, c *c07Case, raised *c07Err, st *c07State, tagSet 
 	}
 	want := c07Travel(layers, c, carried)
 	head := c.Method == http.MethodHead
-	preCommitted := c.Pre == "wrote" || c.Pre == "nocontent" || c.Pre == "flush" || c.Pre == "writeheader"
+	preCommitted := (c.Pre == "wrote" || c.Pre == "nocontent" || c.Pre == "flush" || c.Pre == "writeheader") && c.In == ""
 	var body []byte
 	for _, ch := range w.chunks {
 		body = append(body, ch...)
@@ -1185,7 +1304,8 @@ func c07One(e *echo.Echo, cfg, c *c07Case, raised *c07Err, st *c07State, tagSet 
 					case msg == nil:
 						wantText = http.StatusText(http.StatusInternalServerError)
 					case msg.K == "str" || msg.K == "err":
-						wantText = c07Mk(msg.T)
+						// what a JSON client decodes must be the message itself
+						wantText = c07Coerce(c07Mk(msg.T) + c07Dec(msg.Dec))
 					case msg.K == "dflt":
 						wantText = http.StatusText(code)
 					default:
@@ -1205,6 +1325,12 @@ func c07One(e *echo.Echo, cfg, c *c07Case, raised *c07Err, st *c07State, tagSet 
 					}
 					if _, has := obj["error"]; has && !cfg.Debug {
 						fail("\"error\" detail in the body although Debug is off: %q", body)
+					}
+					// Debug: the detail is the text of the error that was handed over, as JSON carries it
+					if det, has := obj["error"].(string); has && cfg.Debug && want.replBy < 0 && c.Via == "" && st.raised != nil && (c.Panic == "" || c.Panic == "err") && c.In != "writer" {
+						if det != c07Coerce(st.raised.Error()) {
+							fail("Debug detail %q is not the text of the error %q", det, st.raised.Error())
+						}
 					}
 				}
 			}
@@ -1260,7 +1386,7 @@ func c07One(e *echo.Echo, cfg, c *c07Case, raised *c07Err, st *c07State, tagSet 
 	}
 
 	// real server round trip: what a client gets is what the recording writer saw
-	if cfg == c && c.RoundTrip && len(c.Then) == 0 && !want.crash && !crashed && !exclusive && c.Ctx == "" && !c.WFail {
+	if cfg == c && c.RoundTrip && len(c.Then) == 0 && !want.crash && !crashed && !exclusive && c.Ctx == "" && !c.WFail && c.In != "writer" {
 		tag("round-trip")
 		if msg := c07RoundTrip(c, status, body); msg != "" {
 			fail("%s", msg)
@@ -1312,6 +1438,9 @@ func c07One(e *echo.Echo, cfg, c *c07Case, raised *c07Err, st *c07State, tagSet 
 	}
 	if c.From != "" {
 		tag("raised-in-middleware:" + c.From)
+	}
+	if c.In != "" {
+		tag("panic-inside-commit:" + c.In)
 	}
 	if c.Ctx != "" {
 		tag("request-context-" + c.Ctx)
@@ -1430,13 +1559,22 @@ func (g *c07G) msg() *c07Msg {
 	if k != "dflt" && k != "nil" {
 		m.T = g.atom()
 	}
+	if (k == "str" || k == "err") && g.r.Intn(3) == 0 {
+		m.Dec = g.r.Intn(len(c07Decor))
+	}
 	return m
+}
+func (g *c07G) dec() int {
+	if g.r.Intn(4) == 0 {
+		return g.r.Intn(len(c07Decor))
+	}
+	return 0
 }
 func (g *c07G) plain() *c07Err {
 	if g.r.Intn(5) == 0 {
 		return &c07Err{K: "plain", Std: 1 + g.r.Intn(len(c07StdErrs))}
 	}
-	return &c07Err{K: "plain", T: g.atom()}
+	return &c07Err{K: "plain", T: g.atom(), Dec: g.dec()}
 }
 
 // minSent: exported echo variables may be used with an index above this one only (0 = any,
@@ -1447,7 +1585,7 @@ func (g *c07G) err(depth, minSent int) *c07Err {
 	case depth <= 1 && k < 4, k < 2:
 		return g.plain()
 	case k < 4 && depth > 1:
-		return &c07Err{K: "wrap", T: g.atom(), V: g.r.Intn(3), In: g.err(depth-1, minSent)}
+		return &c07Err{K: "wrap", T: g.atom(), V: g.r.Intn(3), Dec: g.dec(), In: g.err(depth-1, minSent)}
 	}
 	e := &c07Err{K: "http", Code: g.code(), Msg: g.msg(), V: g.r.Intn(6)}
 	if minSent < len(c07EchoSent) && g.r.Intn(6) == 0 {
@@ -1555,6 +1693,19 @@ func c07GenRequest(r *rand.Rand, cfg *c07Case, maxDepth int) *c07Case {
 		c.Err = g.err(1+r.Intn(maxDepth), 0)
 	case "abort":
 	default:
+		c.PanicT = g.atom()
+		if c.Panic == "str" {
+			c.PanicDec = g.dec()
+		}
+	}
+	// one request in eight fails INSIDE the commit step of its own response write
+	switch r.Intn(16) {
+	case 0:
+		c.In = "hook"
+		c.Pre, c.PreCode = []string{"wrote", "nocontent", "writeheader", "flush"}[r.Intn(4)], g.code()
+	case 1:
+		c.In = "writer"
+		c.Pre, c.PreCode = []string{"wrote", "nocontent", "writeheader"}[r.Intn(3)], []int{0, 0, 1, 99, 1000, 65536, -1}[r.Intn(7)]
 		c.PanicT = g.atom()
 	}
 	for i, l := range cfg.Layers {
@@ -1671,6 +1822,8 @@ func c07Gen(r *rand.Rand, tier string) []any {
 	}
 	out = append(out, c07GenValues(r)...)
 	out = append(out, c07GenChains(r)...)
+	out = append(out, c07GenBytes(r)...)
+	out = append(out, c07GenCommitPanics(r)...)
 	for i := 0; i < nrt; i++ {
 		c := c07GenCase(r, depth)
 		for c07UsesSent(c.Err) || c.Ctx != "" || c.WFail {
@@ -1881,6 +2034,80 @@ func c07GenChains(r *rand.Rand) []any {
 	return out
 }
 
+// every decoration in every place a text can stand: the HTTP error's own message (string and
+// error-valued), the message of the directly carried HTTP error, plain / wrapping / internal
+// error texts and panic strings (which show up under Debug only), returned and panicked
+func c07GenBytes(r *rand.Rand) []any {
+	var out []any
+	g := &c07G{r: r, next: 1200}
+	rec := []c07Layer{{K: "recover", Default: true}}
+	for d := 1; d < len(c07Decor); d++ {
+		for _, debug := range []bool{false, true} {
+			shapes := []*c07Err{
+				{K: "http", Code: 422, Msg: &c07Msg{K: "str", T: g.atom(), Dec: d}, V: d},
+				{K: "http", Code: 400, Msg: &c07Msg{K: "err", T: g.atom(), Dec: d}, V: d},
+				{K: "http", Code: 500, Msg: &c07Msg{K: "str", T: g.atom()}, V: 1, In: &c07Err{K: "http", Code: 409, Msg: &c07Msg{K: "str", T: g.atom(), Dec: d}}},
+				{K: "http", Code: 502, Msg: &c07Msg{K: "str", T: g.atom(), Dec: d}, V: 1, In: &c07Err{K: "plain", T: g.atom(), Dec: (d + 3) % len(c07Decor)}},
+				{K: "plain", T: g.atom(), Dec: d},
+				{K: "wrap", T: g.atom(), Dec: d, V: d % 3, In: &c07Err{K: "plain", T: g.atom(), Dec: (d + 7) % len(c07Decor)}},
+			}
+			for si, sh := range shapes {
+				pk := ""
+				if (d+si)%3 == 0 {
+					pk = "err"
+				}
+				out = append(out, &c07Case{Debug: debug, Method: []string{http.MethodGet, http.MethodPost, http.MethodGet, http.MethodHead}[(d+si)%4],
+					Layers: rec, NUse: si % 2, Panic: pk, Err: sh, CustomEH: (d+si)%2 == 0})
+			}
+			out = append(out, &c07Case{Debug: debug, Method: http.MethodGet, Layers: rec, NUse: 1, Panic: "str", PanicT: g.atom(), PanicDec: d})
+		}
+	}
+	return out
+}
+
+// panics raised inside the commit step: a before-hook that panics (with every kind of value), a
+// status code the writer refuses (0 = zero-valued config field, 99, 1000, ...), through every
+// helper that commits, under the usual chains, followed by an ordinary failing request
+func c07GenCommitPanics(r *rand.Rand) []any {
+	var out []any
+	g := &c07G{r: r, next: 1600}
+	chains := [][]c07Layer{
+		{{K: "recover", Default: true}},
+		{{K: "recover", NoStack: true}},
+		{{K: "cerr", Ret: true}, {K: "recover", DisableEH: true, NoStack: true}},
+		{{K: "recover", Default: true}, {K: "cerr", Ret: false}},
+		nil,
+	}
+	k := 0
+	for _, pre := range []string{"wrote", "nocontent", "writeheader", "flush"} {
+		for ci, ch := range chains {
+			for _, pk := range []string{"err", "str", "int", "struct", "abort"} {
+				k++
+				c := &c07Case{Debug: k%3 == 0, Method: []string{http.MethodGet, http.MethodHead, http.MethodPost}[k%3], Layers: ch, NUse: len(ch) * (k % 2),
+					In: "hook", Pre: pre, PreCode: []int{200, 201, 204, 302, 404, 500}[k%6], Panic: pk, CustomEH: k%2 == 0, From: []string{"", "", "use"}[(k+ci)%3]}
+				if pk == "err" {
+					c.Err = g.err(1+r.Intn(3), len(c07EchoSent))
+				} else if pk != "abort" {
+					c.PanicT = g.atom()
+				}
+				c.Then = []*c07Case{{Method: http.MethodGet, Err: &c07Err{K: "http", Code: 404, Msg: &c07Msg{K: "str", T: g.atom()}}}}
+				out = append(out, c)
+			}
+			if pre == "flush" {
+				continue
+			}
+			for _, code := range []int{0, 1, 99, 1000, 65536, -1} {
+				k++
+				c := &c07Case{Debug: k%3 == 0, Method: []string{http.MethodGet, http.MethodHead, http.MethodPost}[k%3], Layers: ch, NUse: len(ch) * (k % 2),
+					In: "writer", Pre: pre, PreCode: code, Panic: "str", PanicT: g.atom(), CustomEH: k%2 == 0, From: []string{"", "", "group"}[(k+ci)%3]}
+				c.Then = []*c07Case{{Method: http.MethodGet, In: "writer", Pre: "nocontent", PreCode: 0, Panic: "str", PanicT: g.atom()}}
+				out = append(out, c)
+			}
+		}
+	}
+	return out
+}
+
 func c07Shrink(ci any) []any {
 	c := ci.(*c07Case)
 	var out []any
@@ -1979,6 +2206,12 @@ func c07Shrink(ci any) []any {
 	if c.From != "" {
 		add(func(d *c07Case) { d.From = "" })
 	}
+	if c.In != "" {
+		add(func(d *c07Case) { d.In = "" })
+	}
+	if c.PanicDec != 0 {
+		add(func(d *c07Case) { d.PanicDec = 0 })
+	}
 	if len(c.Skip) > 0 {
 		add(func(d *c07Case) { d.Skip = nil })
 	}
@@ -2041,14 +2274,26 @@ func c07ShrinkErr(e *c07Err) []*c07Err {
 	if e.K == "plain" && e.Std > 0 {
 		out = append(out, &c07Err{K: "plain", T: 800 + e.Std})
 	}
+	if (e.K == "plain" || e.K == "wrap") && e.Dec != 0 {
+		d := *e
+		d.Dec = 0
+		out = append(out, &d)
+	}
+	if e.K == "http" && e.Sent == 0 && e.Msg != nil && e.Msg.Dec != 0 {
+		d := *e
+		m := *e.Msg
+		m.Dec = 0
+		d.Msg = &m
+		out = append(out, &d)
+	}
 	if e.K == "http" && e.Sent == 0 && e.Msg.K != "str" {
 		d := *e
-		d.Msg = &c07Msg{K: "str", T: 900 + e.Msg.T}
+		d.Msg = &c07Msg{K: "str", T: 900 + e.Msg.T, Dec: e.Msg.Dec}
 		out = append(out, &d)
 	}
 	if e.K == "http" && e.Sent > 0 {
 		d := *e
-		d.Sent, d.Msg = 0, &c07Msg{K: "dflt"}
+		d.Code, d.Sent, d.Msg = c07EchoSent[e.Sent-1].Code, 0, &c07Msg{K: "dflt"}
 		out = append(out, &d)
 	}
 	return out
@@ -2075,7 +2320,7 @@ func c07Mutate(r *rand.Rand, ci any) []any {
 func init() {
 	register(&Prop{
 		ID:             "C07",
-		Rule:           "an Echo configuration x a sequence of 1-4 failing requests through that one Echo, served one after the other on one goroutine (pooled context reused), each judged on its own.  Error values as trees: plain | wrap (fmt.Errorf(%w), errors.Join, an application type with Unwrap) | *echo.HTTPError (NewHTTPError / literal / SetInternal / WithInternal) with message kinds {string, default StatusText, error value, json.Marshaler (also one that is an error too), map/struct/slice/named string type, nil} and Internal {none, plain, wrapped, HTTPError, nested}, depth <= 3 (thorough: 5), codes 200-599 incl. 204/304; plain errors are unique markers or one of 18 well-known error VALUES (context.Canceled, context.DeadlineExceeded, io.EOF, io.ErrUnexpectedEOF, http.ErrAbortHandler (returned), http.ErrHandlerTimeout, os.ErrNotExist, sql.ErrNoRows, net.ErrClosed, echo.ErrValidatorNotRegistered, ...); HTTP errors may be built from 16 exported echo variables (echo.ErrInternalServerError, ErrNotFound, ErrUnauthorized, ...) as they are or decorated with SetInternal (changes the variable for all later requests; the harness tracks that symbolically, runs such cases alone and restores the variables) / WithInternal; the router's own 404 / 405 as error sources.  x raised in the route's handler or in a middleware at Pre / Use / group level x returned or panicked (panic values: error, string, int, struct, http.ErrAbortHandler) x a middleware chain of 0-4 layers, each a Recover instance (Recover() or RecoverWithConfig with DisableErrorHandler, Skipper skipping per request, LogErrorFunc returning the same error / another error / nil, every LogLevel, DisablePrintStack, DisableStackAll, StackSize 0/1/64/4096/16384) or a middleware that calls c.Error(err) and returns err or nil, placed at Pre / Use / group / route level x Echo.HTTPErrorHandler = the default or a counting wrapper around it (number of hand-overs and the error value handed over are checked) x handler did {nothing, String, NoContent, Flush, WriteHeader, failed JSON} before failing x GET/HEAD/POST/PUT/DELETE/OPTIONS/PATCH x Debug x request context live / cancelled / past its deadline x underlying writer accepting or failing every Write; fixed families: legacy configurations, decision points of the handler (two Internal levels, %w around / inside an HTTPError), every well-known value in four positions x three chains, every exported variable decorated in request 1 and plain errors / panics / the bare variable / router 404+405 afterwards, every LogErrorFunc mode x DisableErrorHandler x outer middleware x LogLevel, Skipper masks over 1-3 (+1 default) instances; every text is a unique marker; a follow-up request checks the server still serves; thorough: 3000 cases also through a real httptest.Server; non-trivial = tree depth >= 2, or a panic, or committed before the error, or a chain of >= 2 middlewares, or a sequence of requests",
+		Rule:           "an Echo configuration x a sequence of 1-4 failing requests through that one Echo, served one after the other on one goroutine (pooled context reused), each judged on its own.  Error values as trees: plain | wrap (fmt.Errorf(%w), errors.Join, an application type with Unwrap) | *echo.HTTPError (NewHTTPError / literal / SetInternal / WithInternal) with message kinds {string, default StatusText, error value, json.Marshaler (also one that is an error too), map/struct/slice/named string type, nil} and Internal {none, plain, wrapped, HTTPError, nested}, depth <= 3 (thorough: 5), codes 200-599 incl. 204/304; plain errors are unique markers or one of 18 well-known error VALUES (context.Canceled, context.DeadlineExceeded, io.EOF, io.ErrUnexpectedEOF, http.ErrAbortHandler (returned), http.ErrHandlerTimeout, os.ErrNotExist, sql.ErrNoRows, net.ErrClosed, echo.ErrValidatorNotRegistered, ...); HTTP errors may be built from 16 exported echo variables (echo.ErrInternalServerError, ErrNotFound, ErrUnauthorized, ...) as they are or decorated with SetInternal (changes the variable for all later requests; the harness tracks that symbolically, runs such cases alone and restores the variables) / WithInternal; the router's own 404 / 405 as error sources.  x raised in the route's handler or in a middleware at Pre / Use / group level x returned or panicked (panic values: error, string, int, struct, http.ErrAbortHandler) x a middleware chain of 0-4 layers, each a Recover instance (Recover() or RecoverWithConfig with DisableErrorHandler, Skipper skipping per request, LogErrorFunc returning the same error / another error / nil, every LogLevel, DisablePrintStack, DisableStackAll, StackSize 0/1/64/4096/16384) or a middleware that calls c.Error(err) and returns err or nil, placed at Pre / Use / group / route level x Echo.HTTPErrorHandler = the default or a counting wrapper around it (number of hand-overs and the error value handed over are checked) x handler did {nothing, String, NoContent, Flush, WriteHeader, failed JSON} before failing x GET/HEAD/POST/PUT/DELETE/OPTIONS/PATCH x Debug x request context live / cancelled / past its deadline x underlying writer accepting or failing every Write; fixed families: legacy configurations, decision points of the handler (two Internal levels, %w around / inside an HTTPError), every well-known value in four positions x three chains, every exported variable decorated in request 1 and plain errors / panics / the bare variable / router 404+405 afterwards, every LogErrorFunc mode x DisableErrorHandler x outer middleware x LogLevel, Skipper masks over 1-3 (+1 default) instances; every text is a unique marker, a third of the string / error-valued messages and a quarter of the plain / wrapper texts and panic strings followed by one of 19 byte decorations (NUL, 0x01, \\a, \\v, DEL, invalid UTF-8, a surrogate half, a non-printable astral rune, U+2028/2029, C1 controls, BOM, quotes, backslash, HTML characters, ESC sequence, non-ASCII text, format verbs): the oracle decodes the body as JSON and compares message (and Debug detail) with the original text up to U+FFFD for invalid bytes; one request in eight panics INSIDE the commit step of its own response write (a Response.Before hook that panics with any kind of value, or a status code outside 100..999 on a writer that refuses it like net/http); a follow-up request checks the server still serves; thorough: 3000 cases also through a real httptest.Server; non-trivial = tree depth >= 2, or a panic, or committed before the error, or a chain of >= 2 middlewares, or a sequence of requests",
 		New:            func() any { return &c07Case{} },
 		Gen:            c07Gen,
 		Run:            c07Run,
